@@ -364,8 +364,8 @@ def negoff_cases(rng, tier):
                         out.append(Case(kind="negoff-%d" % depth, spec=spec,
                                         lines=["bitd decode " + c13.tok(neg), "bitd decode " + c13.tok(norm), "bitd decodefast " + c13.tok(neg)],
                                         expect=[None, None, None]))
-    if tier == "quick" and len(out) > 1500:
-        out = rng.sample(out, 1500)
+    if tier == "quick" and len(out) > 800:
+        out = rng.sample(out, 800)
     return out
 
 
